@@ -175,34 +175,26 @@ def check_codec(chk, repo, P):
 
     # ---------------------------------------------------------------- K3 dtype kinds
     ea = enc.func("encode_array")
-    enc_kinds, dec_kinds = {}, {}
-    for n in ea.own_nodes():
-        if isinstance(n, ast.Dict) and n.keys and all(const_str(k) in ("m", "M", "b", "i", "u", "f", "c", "U", "S", "O") for k in n.keys):
-            for k, v in zip(n.keys, n.values):
-                cs = resolve_callees(repo, ea, v)
-                enc_kinds[const_str(k)] = cs[0].func if cs and cs[0].func else None
-    for n in da.own_nodes():
-        if isinstance(n, ast.Dict) and n.keys and all(const_str(k) in ("m", "M", "b", "i", "u", "f", "c", "U", "S", "O") for k in n.keys):
-            for k, v in zip(n.keys, n.values):
-                cs = resolve_callees(repo, da, v)
-                dec_kinds[const_str(k)] = cs[0].func if cs and cs[0].func else None
+    enc_kinds, enc_default, enc_form = kind_dispatch(repo, ea)
+    dec_kinds, dec_default, dec_form = kind_dispatch(repo, da)
     if not enc_kinds:
-        raise AnalysisError("anchor vanished: dtype-kind encoder table in encode_array")
-    for kind, efi in sorted(enc_kinds.items()):
-        if efi is None:
+        raise AnalysisError("anchor vanished: dtype-kind dispatch (table or if-chain on dtype.kind) in encode_array")
+    for kind, eh in sorted(enc_kinds.items()):
+        if eh.func is None and not eh.stmts:
             raise AnalysisError(f"encoder for dtype kind {kind!r} does not resolve to a function")
-        relative = any(isinstance(n, ast.Dict) and "reference" in _dict_keys(n) for n in ast.walk(efi.node))
+        ewhere = f"{enc.relpath}:{eh.name}"
+        relative = any(isinstance(n, ast.Dict) and "reference" in _dict_keys(n) for n in eh.walk())
         # integer cast
-        casts = [c for c in ast.walk(efi.node) if isinstance(c, ast.Call) and isinstance(c.func, ast.Attribute) and c.func.attr == "astype"]
+        casts = [c for c in eh.walk() if isinstance(c, ast.Call) and isinstance(c.func, ast.Attribute) and c.func.attr == "astype"]
         int_ok = bool(casts) and all(_is_int64(c.args[0]) for c in casts if c.args)
-        chk.require(int_ok, R("K3"), f"{enc.relpath}:{efi.qualname}",
+        chk.require(int_ok, R("K3"), ewhere,
                     f"kind {kind!r}: values are cast with an integer 64-bit dtype before tolist() (no float on the path)",
                     f"kind {kind!r}: cast is {[short(c) for c in casts]} - not an int64 cast, so 64-bit tick counts are rounded",
                     key=f"kind:{kind}:cast", sample={"kind": kind, "casts": [short(c) for c in casts]})
         # the value that is cast must be obtained without a float intermediate: no true division, no float dtype
         floaty = []
         for c in casts:
-            recv = Flow(efi).expand(c.func.value)
+            recv = eh.flow.expand(c.func.value)
             for n in ast.walk(recv):
                 if isinstance(n, ast.BinOp) and isinstance(n.op, (ast.Div, ast.Mult, ast.Pow)):
                     floaty.append(short(n, 60))
@@ -210,28 +202,34 @@ def check_codec(chk, repo, P):
                     floaty.append(short(n, 60))
                 if isinstance(n, ast.Call) and norm(n.func) in ("np.divide", "np.true_divide", "float", "np.float64"):
                     floaty.append(short(n, 60))
-        chk.require(not floaty, R("K3"), f"{enc.relpath}:{efi.qualname}",
+        chk.require(not floaty, R("K3"), ewhere,
                     f"kind {kind!r}: the ticks are cast directly (no division / float intermediate before the int64 cast)",
                     f"kind {kind!r}: the value cast to int64 goes through {floaty[:2]}: a float64 intermediate rounds tick counts beyond 2**53 (datetimes not exact to the nanosecond)",
                     key=f"kind:{kind}:float-intermediate")
-        units_written = any(isinstance(n, ast.Dict) and "units" in _dict_keys(n) for n in ast.walk(efi.node))
+        units_written = any(isinstance(n, ast.Dict) and "units" in _dict_keys(n) for n in eh.walk())
         if relative:
-            dfi = dec_kinds.get(kind)
-            chk.require(dfi is not None, R("K3"), f"{dec.relpath}:decode_array",
-                        f"kind {kind!r} is stored relative to a reference and has the custom decoder {dfi.qualname if dfi else None}",
+            dh_ = dec_kinds.get(kind)
+            chk.require(dh_ is not None, R("K3"), f"{dec.relpath}:decode_array",
+                        f"kind {kind!r} is stored relative to a reference and has the custom decoder {dh_.name if dh_ else None}",
                         f"kind {kind!r} is stored as offsets from a reference but no decoder for it is registered: offsets would be read as absolute values",
                         key=f"kind:{kind}:decoder")
-            if dfi is not None:
-                _check_decode_datetime(chk, R("K3"), dec, dfi)
+            if dh_ is not None:
+                if dh_.func is None:
+                    raise AnalysisError(f"{dec.relpath}:decode_array: the decoder of kind {kind!r} is written inline; its arithmetic is not decided")
+                _check_decode_datetime(chk, R("K3"), dec, dh_.func)
         else:
             # default decode must rebuild with the stored dtype string
-            dd = dec.funcs.get("decode_array.default_decode")
             ok = False
-            if kind in dec_kinds and dec_kinds[kind] is not None:
+            if kind in dec_kinds:
                 ok = True
-            elif dd is not None:
-                txt = norm(Flow(dd).expand([n for n in dd.own_nodes() if isinstance(n, ast.Return)][0].value))
-                ok = "dtype=obj['dtype']" in txt and "obj['data']" in txt
+            elif dec_default is not None:
+                rets = dec_default.returns()
+                if len(rets) != 1:
+                    raise AnalysisError(f"{dec.relpath}:decode_array: the default decoder has {len(rets)} returns; not decided")
+                full = dec_default.flow.expand(rets[0])
+                txt = norm(full).replace('"', "'")
+                dp = dec_default.param
+                ok = f"dtype={dp}['dtype']" in txt and f"{dp}['data']" in txt
             chk.require(ok and units_written, R("K3"), f"{dec.relpath}:decode_array",
                         f"kind {kind!r}: ticks in the dtype's own unit, rebuilt by np.array(data, dtype=<stored dtype>)",
                         f"kind {kind!r}: no decoder and the default does not rebuild from the stored dtype", key=f"kind:{kind}:default")
@@ -239,10 +237,10 @@ def check_codec(chk, repo, P):
         chk.require(kind in enc_kinds, R("K3"), f"{dec.relpath}:decode_array", f"decoder for kind {kind!r} has a matching encoder",
                     f"decoder registered for kind {kind!r} but the encoder writes that kind with the default (absolute) encoding", key=f"kind:{kind}:orphan")
     # dispatch keys: encoder dispatches on obj.dtype.kind, decoder on np.dtype(stored).kind
-    for fi, label in ((ea, "encode_array"), (da, "decode_array")):
-        ok = any(isinstance(n, ast.Call) and isinstance(n.func, ast.Attribute) and n.func.attr == "get" and n.args
-                 and norm(Flow(fi).expand(n.args[0])).endswith(".kind") for n in fi.own_nodes())
-        chk.require(ok, R("K3"), f"{label}", "codec is selected by dtype.kind", "codec is not selected by dtype.kind", key=f"{label}:kind-dispatch")
+    for form, label in ((enc_form, "encode_array"), (dec_form, "decode_array")):
+        if form is None:
+            raise AnalysisError(f"{label}: no dispatch on dtype.kind found (neither a table looked up with .get(<dtype>.kind) nor an if-chain); not decided")
+        chk.require(form[0], R("K3"), f"{label}", f"codec is selected by dtype.kind ({form[1]})", f"codec is not selected by dtype.kind ({form[1]})", key=f"{label}:kind-dispatch")
 
     # ---------------------------------------------------------------- K4 tuples
     pre = enc.func("preprocess")
@@ -367,6 +365,109 @@ def check_codec(chk, repo, P):
     chk.require("records_per_chunk" not in wdoc, R("K7"), f"{enc.relpath}:encode_array",
                 "records_per_chunk is not persisted in the index", "records_per_chunk is stored in the index document", key="array-field:records_per_chunk:persisted")
     return written, wdoc
+
+
+KIND_LETTERS = ("m", "M", "b", "i", "u", "f", "c", "U", "S", "O")
+
+
+class Handler:
+    """what handles one dtype kind: a repo function, or statements written inline in the dispatching function"""
+
+    def __init__(self, owner, func=None, stmts=None, param=None):
+        self.owner = owner
+        self.func = func
+        self.stmts = stmts or []
+        self.flow = Flow(func if func is not None else owner)
+        self.param = param if param is not None else (func.positional_params[0] if func is not None and func.positional_params else owner.positional_params[0])
+        self.name = func.qualname if func is not None else f"{owner.qualname} (inline branch)"
+
+    def walk(self):
+        if self.func is not None:
+            yield from ast.walk(self.func.node)
+        else:
+            for st in self.stmts:
+                yield from ast.walk(st)
+
+    def returns(self):
+        nodes = self.func.own_nodes() if self.func is not None else [n for st in self.stmts for n in ast.walk(st)]
+        return [n.value for n in nodes if isinstance(n, ast.Return) and n.value is not None]
+
+
+def _handler_of(repo, fi, stmts):
+    """an inline branch that only delegates to one repo function taking the array -> that function"""
+    calls = [n for st in stmts for n in ast.walk(st) if isinstance(n, ast.Call)]
+    if len(stmts) == 1 and isinstance(stmts[0], (ast.Return, ast.Assign, ast.Expr)) and isinstance(stmts[0].value, ast.Call):
+        cs = resolve_callees(repo, fi, stmts[0].value.func)
+        if len(cs) == 1 and cs[0].func is not None:
+            return Handler(fi, func=cs[0].func)
+    return Handler(fi, stmts=stmts)
+
+
+def _kind_test(flow, test):
+    """kinds selected by a test of the form <x>.kind == 'K' / <x>.kind in ('K', ...) (locals expanded)"""
+    if isinstance(test, ast.Compare) and len(test.ops) == 1:
+        l, r = test.left, test.comparators[0]
+        if isinstance(test.ops[0], ast.Eq):
+            for a, b in ((l, r), (r, l)):
+                if const_str(b) in KIND_LETTERS and norm(flow.expand(a)).endswith(".kind"):
+                    return [const_str(b)]
+        if isinstance(test.ops[0], ast.In) and isinstance(r, (ast.Tuple, ast.List, ast.Set)) and all(const_str(x) in KIND_LETTERS for x in r.elts) and norm(flow.expand(l)).endswith(".kind"):
+            return [const_str(x) for x in r.elts]
+    return None
+
+
+def kind_dispatch(repo, fi):
+    """-> ({kind: Handler}, default Handler|None, (selected by dtype.kind?, description)|None)"""
+    flow = Flow(fi)
+    table, default, form = {}, None, None
+    for n in fi.own_nodes():
+        if isinstance(n, ast.Dict) and n.keys and all(const_str(k) in KIND_LETTERS for k in n.keys):
+            for k, v in zip(n.keys, n.values):
+                cs = resolve_callees(repo, fi, v)
+                table[const_str(k)] = Handler(fi, func=cs[0].func) if cs and cs[0].func else Handler(fi)
+    if table:
+        for n in fi.own_nodes():
+            if isinstance(n, ast.Call) and isinstance(n.func, ast.Attribute) and n.func.attr == "get" and n.args:
+                base = flow.expand(n.func.value)
+                if isinstance(base, ast.Dict) and base.keys and all(const_str(k) in KIND_LETTERS for k in base.keys):
+                    key = norm(flow.expand(n.args[0]))
+                    form = (key.endswith(".kind"), f"table.get({key})")
+                    if len(n.args) > 1:
+                        cs = resolve_callees(repo, fi, n.args[1])
+                        if cs and cs[0].func is not None:
+                            default = Handler(fi, func=cs[0].func)
+        return table, default, form
+    # if-chain
+    def scan(stmts):
+        nonlocal default, form
+        for i, st in enumerate(stmts):
+            if isinstance(st, ast.If):
+                kinds = _kind_test(flow, st.test)
+                if kinds is not None:
+                    h = _handler_of(repo, fi, st.body)
+                    for k in kinds:
+                        table[k] = h
+                    form = (True, "if-chain on dtype.kind")
+                    rest = stmts[i + 1:]
+                    if st.orelse:
+                        if len(st.orelse) == 1 and isinstance(st.orelse[0], ast.If) and _kind_test(flow, st.orelse[0].test) is not None:
+                            scan(st.orelse)
+                        else:
+                            default = _handler_of(repo, fi, st.orelse)
+                    elif rest:
+                        if any(isinstance(x, ast.If) and _kind_test(flow, x.test) is not None for x in rest[:1]):
+                            scan(rest)
+                        else:
+                            default = _handler_of(repo, fi, rest)
+                    return True
+                if scan(st.body) or scan(st.orelse):
+                    return True
+            elif isinstance(st, (ast.With, ast.Try, ast.For)):
+                if scan(st.body):
+                    return True
+        return False
+    scan(list(fi.node.body))
+    return table, default, form
 
 
 def _fq(repo, fi, f):
